@@ -764,13 +764,13 @@ func Choose(x *h.X, kind Kind, o Opts) (c *Cfg, ok bool) {
 		if x.Thorough() {
 			for _, a := range []int{16, 32} {
 				for _, iv := range []int{12, 13, 14, 15, 16} {
-					for _, m := range []int{16, 32, 129} {
+					for _, m := range []int{16, 32, 64, 65, 128, 129} { // 64/65 and 128/129: around the SHA-2 block sizes (RFC 2104 key hashing)
 						ss = append(ss, sizes{a, iv, m})
 					}
 				}
 			}
 		} else {
-			ss = []sizes{{16, 12, 16}, {32, 16, 32}, {16, 16, 32}, {32, 12, 16}, {16, 13, 129}}
+			ss = []sizes{{16, 12, 16}, {32, 16, 32}, {16, 16, 65}, {32, 12, 128}, {16, 13, 129}, {32, 15, 64}}
 		}
 		s := h.Pick(x, "sizes", ss)
 		c.KeySize, c.IVSize, c.MACKeySize = s.aes, s.iv, s.mac
